@@ -229,7 +229,7 @@ def _reqs():
         amts = (-1, 0, 1, 2)
         single = [{r: n} for r in U for n in amts]
         double = [{'A': a, 'B': b} for a in amts for b in amts]
-        mixed = [{'A': 1, 'Z': 0}, {'A': 1, 'Z': 1}, {'Z': 0, 'A': 1}, {'B': 2, 'A': 1}, {'B': -1, 'A': 1}]
+        mixed = [{'A': 1, 'Z': 0}, {'A': 1, 'Z': 1}, {'Z': 0, 'A': 1}, {'B': 2, 'A': 1}, {'B': -1, 'A': 1}, {}, {}]
         REQ_POOL = single + double + mixed
     return REQ_POOL
 
